@@ -8,7 +8,12 @@ HERE="$(cd "$(dirname "${BASH_SOURCE[0]}")/.." && pwd)"
 S="$(mktemp -d /tmp/vf-mut-XXXXXX)"
 trap 'rm -rf "$S"' EXIT
 mkdir -p "$S/repo"
-cp -r /repo/src /repo/tests /repo/pyproject.toml "$S/repo/" 2>/dev/null
+if [ -n "${MUT_BASE:-}" ]; then
+  git -C /repo archive "$MUT_BASE" src tests pyproject.toml | tar -x -C "$S/repo"
+  cp /repo/src/nanite/_version.py "$S/repo/src/nanite/_version.py"
+else
+  cp -r /repo/src /repo/tests /repo/pyproject.toml "$S/repo/" 2>/dev/null
+fi
 ( cd "$S/repo" && git init -q . && git apply --whitespace=nowarn "$PATCH" ) || { echo "patch failed"; exit 9; }
 cd "$HERE" && VF_REPO="$S/repo" ./check "$PROP" --tier "$TIER" "$@"
 echo "exit=$?"
